@@ -1822,13 +1822,13 @@ func c07Main(args []string) int {
 	if *nGen == 0 {
 		*nGen = 150
 		if thorough {
-			*nGen = 1500
+			*nGen = 800
 		}
 	}
 	if *nHost == 0 {
 		*nHost = 320
 		if thorough {
-			*nHost = 3200
+			*nHost = 1600
 		}
 	}
 	if *hang == 0 {
